@@ -295,8 +295,11 @@ def writeinprofile(rng):
     w = rng.randint(1, 3)
     top = rng.randint(9, 12)
     tallies = [top]
-    for _ in decl[1:]:
-        tallies.append(max(1, tallies[-1] - rng.randint(1, 3)))
+    if rng.random() < 0.35:
+        tallies += [rng.randint(1, 2) for _ in decl[1:]]          # one dominant candidate, everybody else a certain loser
+    else:
+        for _ in decl[1:]:
+            tallies.append(max(1, tallies[-1] - rng.randint(1, 3)))
     lines = []
     for c, t in zip(decl, tallies):
         others = [x for x in decl if x != c]
@@ -309,7 +312,7 @@ def writeinprofile(rng):
     rng.shuffle(lines)
     tie = list(range(1, nc + 1))
     rng.shuffle(tie)
-    return dict(nc=nc, seats=rng.choice([1, 2, 2]), lines=lines, tie=tie, withdrawn=[], undeclared=[W], eqlines=[])
+    return dict(nc=nc, seats=rng.choice([1, 2, 2, 3]), lines=lines, tie=tie, withdrawn=[], undeclared=[W], eqlines=[])
 
 
 def surplustieprofile(rng):
@@ -373,7 +376,41 @@ def sparseprofile(rng):
     return dict(nc=nc, seats=min(seats, nc - len(wd)), lines=lines, tie=tie, withdrawn=wd, undeclared=[], eqlines=[])
 
 
-SHAPES = dict(surplustie=surplustieprofile, bigm=bigmprofile, sparse=sparseprofile, reversal=reversalprofile, writein=writeinprofile, prior=priorprofile, bullet=bulletprofile, exact=exactprofile, sliver=sliverprofile, random=randprofile, tie=tieprofile, quota=quotaprofile, chain=chainprofile, coalition=coalitionprofile)
+def unanimousprofile(rng):
+    "(almost) every ballot starts with the same candidate: one elected candidate holds nearly all the votes"
+    nc = rng.randint(3, 5)
+    seats = rng.randint(2, nc - 1)
+    base = list(range(1, nc + 1))
+    order = list(base)
+    rng.shuffle(order)
+    lines = [(rng.randint(6, 12), order[:rng.randint(2, nc)])]
+    if rng.random() < 0.5:
+        lines.append((rng.randint(1, 3), [order[0]] + rng.sample(order[1:], rng.randint(0, nc - 1))))
+    if rng.random() < 0.3:
+        lines.append((1, [order[-1]]))
+    tie = list(base)
+    rng.shuffle(tie)
+    return dict(nc=nc, seats=seats, lines=lines, tie=tie, withdrawn=[], undeclared=[], eqlines=[])
+
+
+def neartieprofile(rng):
+    """
+    guarded arithmetic: two candidates pending at once whose tallies differ only in the guard digits (8 against 6 + 6 x 0.333..),
+    so that they tie within the tolerance although their stored values differ; the tie order decides
+    """
+    k = rng.choice([1, 1, 2])
+    A, B, C, D, E = rng.sample(range(1, 6), 5)
+    # 30k ballots, 4 seats: quota 6k; C has 9k (transfer value 1/3), six of C's papers go to B (6k + 2k*0.333..), A has 8k outright
+    lines = [(8 * k, [A]), (6 * k, [B]), (6 * k, [C, B]), (3 * k, [C, D]), (4 * k, [D]), (3 * k, [E])]
+    rng.shuffle(lines)
+    tie = [B, A] + [x for x in (C, D, E)]
+    if rng.random() < 0.3:
+        rng.shuffle(tie)
+    order = {c: i + 1 for i, c in enumerate(tie)}
+    return dict(nc=5, seats=4, lines=lines, tie=tie, withdrawn=[], undeclared=[], eqlines=[])
+
+
+SHAPES = dict(unanimous=unanimousprofile, neartie=neartieprofile, surplustie=surplustieprofile, bigm=bigmprofile, sparse=sparseprofile, reversal=reversalprofile, writein=writeinprofile, prior=priorprofile, bullet=bulletprofile, exact=exactprofile, sliver=sliverprofile, random=randprofile, tie=tieprofile, quota=quotaprofile, chain=chainprofile, coalition=coalitionprofile)
 
 # configurations whose numbers fit TLC's 32-bit integers for small electorates
 WIGM_ARITH = [
@@ -412,7 +449,7 @@ LOWPREC_OPT = {'wigm-prf': [None, None, (2, None, None), (1, None, None)], 'wigm
                'scotland': [None, None, (2, None, None)], 'mpls': [None, None, (2, None, None)]}
 
 
-def configs(rule, rng=None, all_=False):
+def configs(rule, rng=None, all_=False, k=1):
     "list of (opts, lowprec) for a rule"
     if rule == 'wigm':
         L = [(dict(rule=rule, **a), None) for a in WIGM_ARITH]
@@ -428,4 +465,4 @@ def configs(rule, rng=None, all_=False):
         L = [(dict(rule=rule), None)]
     if all_ or rng is None:
         return L
-    return [rng.choice(L)]
+    return rng.sample(L, min(k, len(L)))
